@@ -149,7 +149,7 @@ impl HistCfg
             "C20" =>
             {
                 c.failures = true;
-                c.weights[W_POISON_FAIL] = 3; c.weights[W_POISON_SKIP] = 2; c.weights[W_TAMPER] = 6; c.weights[W_CLEAN_GOAL] = 4;
+                c.weights[W_POISON_FAIL] = 3; c.weights[W_POISON_SKIP] = 2; c.weights[W_TAMPER] = 6; c.weights[W_CLEAN_GOAL] = 4; c.weights[W_POISON_STEP] = 3;
                 c.random_sched_pct = 30;
             },
             _ => {},
@@ -275,7 +275,7 @@ impl HistRun
         {
             let leaves = self.current_leaves();
             let targets = self.current_targets();
-            match rng.below(7)
+            match rng.below(8)
             {
                 0 if leaves.len() > 0 =>
                 {
@@ -315,6 +315,16 @@ impl HistRun
                     let g = self.random_goal(rng);
                     self.queue.extend(vec![HOp::Build(None), HOp::StashTarget(t.clone()), HOp::EditLeaf(l.clone()), HOp::Build(None), HOp::Clean(g),
                         HOp::UnstashOver(t), HOp::EditLeaf(l.clone()), HOp::Build(None), HOp::RevertLeaf(l), HOp::Build(None)]);
+                },
+                6 if leaves.len() > 2 && self.cfg.failures =>
+                {
+                    // contents travel between paths (swap, swap back) while an unrelated part of the graph fails and is repaired
+                    let mut pool = leaves.clone();
+                    rng.shuffle(&mut pool);
+                    let (a, b, c) = (pool[0].clone(), pool[1].clone(), pool[2].clone());
+                    self.queue.extend(vec![HOp::Build(None), HOp::SwapLeaves(a.clone(), b.clone()), HOp::Build(None), HOp::PoisonFail(c.clone()),
+                        HOp::SwapLeaves(a.clone(), b.clone()), HOp::Build(None), HOp::RevertLeaf(c), HOp::Build(None), HOp::SwapLeaves(a.clone(), b.clone()), HOp::Build(None),
+                        HOp::SwapLeaves(a, b), HOp::Build(None)]);
                 },
                 _ if leaves.len() > 0 && self.cfg.failures =>
                 {
@@ -374,7 +384,7 @@ impl HistRun
                 W_POISON_STEP if leaves.len() > 0 =>
                 {
                     let l = leaves[rng.below(leaves.len())].clone();
-                    if !self.world.rules.iter().any(|r| r.split && r.outs.len() >= 2 && r.sources.contains(&l)) { continue; }
+                    if !self.world.rules.iter().any(|r| (r.precheck || (r.split && r.outs.len() >= 2)) && r.sources.contains(&l)) { continue; }
                     HOp::PoisonFailStep(l, rng.below(2))
                 },
                 _ => continue,
@@ -688,8 +698,9 @@ pub fn judge(run : &mut HistRun, obs : &Obs, judge : &mut Judge) -> Vec<Violatio
     }
     all.extend(v);
 
-    // C20 (only meaningful when the verdict itself is consistent with the model)
-    if fail_clean
+    // C20: judged on every build; "finished" comes from the model, so a banner for a rule whose command must fail is a
+    // violation even when the verdict is wrong as well
+    let _ = fail_clean;
     {
         let (v, judged) = world::m_status(obs);
         if judge.prop == "C20" && obs.kind == "build"
